@@ -1027,6 +1027,7 @@ def run_c04(case):     # (C04 and C05: recorder histories and racing-threads cas
 if __name__ == '__main__':
     hs = {p: run_history for p in ("C01", "C02", "C03", "C05", "C09", "C18", "REC")}
     hs["C01"] = lambda case: run_mutation_probe(case) if case.get("kind") == "mutation" else run_history(case)
+    hs["C02"] = hs["C03"] = lambda case: __import__("alias_probes").run_alias_probe(case) if case.get("kind") == "alias" else run_history(case)
     hs["C04"] = run_c04
     hs["C05"] = run_c04
     hs["C09"] = run_c04
